@@ -164,7 +164,7 @@ PROPS = {
         "assumptions": ["Pin erased (all types Unpin, R10)", "block size of cfb8::Encryptor is 1 byte (BlockSizeUser)"],
     },
     "C11": {
-        "units": ["U6"],
+        "units": ["U6", "U7"],
         "level": "proof",
         "witness": [(r".", "mchash")],
         "sweep": ["mchash"],
